@@ -186,14 +186,17 @@ theorem putSub_same : ∀ (is : List Int) (v w : Tree), subscripts v is = .ok w 
 
 /-! ### the object a segment denotes -/
 
-theorem segGet_segPut (kvs : Kvs) (m : Name) (old new : Tree) (h : segGet kvs m = .ok old) :
-    segGet (segPut kvs m new) m = .ok new := by
+/-- a plain name or a literal `name[i][j]…` (not an index expression) -/
+def LitSeg (m : Name) : Prop := '[' ∈ m → (parseSeg m).isSome = true
+
+theorem segGet_segPut (kvs : Kvs) (m : Name) (old new : Tree) (hlit : LitSeg m)
+    (h : segGet kvs m = .ok old) : segGet (segPut kvs m new) m = .ok new := by
   unfold segGet segPut at *
   by_cases hb : '[' ∈ m
   · simp only [hb, if_true] at h ⊢
     unfold evalSeg at h ⊢
     cases hp : parseSeg m with
-    | none => simp [hp] at h
+    | none => have := hlit hb; simp [hp] at this
     | some p =>
       obtain ⟨name, is⟩ := p
       simp only [hp] at h ⊢
@@ -209,7 +212,7 @@ theorem segGet_segPut (kvs : Kvs) (m : Name) (old new : Tree) (h : segGet kvs m 
     · rename_i w hw
       simp [replaceK, hw, lookupK_insertK_same]
 
-theorem segPut_same (kvs : Kvs) (m : Name) (v : Tree) (h : segGet kvs m = .ok v) :
+theorem segPut_same (kvs : Kvs) (m : Name) (v : Tree) (hlit : LitSeg m) (h : segGet kvs m = .ok v) :
     segPut kvs m v = kvs := by
   unfold segGet at h
   unfold segPut
@@ -217,7 +220,7 @@ theorem segPut_same (kvs : Kvs) (m : Name) (v : Tree) (h : segGet kvs m = .ok v)
   · simp only [hb, if_true] at h ⊢
     unfold evalSeg at h
     cases hp : parseSeg m with
-    | none => simp [hp] at h
+    | none => have := hlit hb; simp [hp] at this
     | some p =>
       obtain ⟨name, is⟩ := p
       simp only [hp] at h ⊢
@@ -242,7 +245,13 @@ theorem segPut_same (kvs : Kvs) (m : Name) (v : Tree) (h : segGet kvs m = .ok v)
 `name[i][j]…` -/
 def GoodSeg (m : Name) : Bool :=
   m != [] && !(decide ('.' ∈ m)) &&
-    (!(decide ('[' ∈ m)) || ((parseSeg m).isSome && m.getLast? == some ']'))
+    (!(decide ('[' ∈ m)) || ((parseSeg m).isSome && m.getLast? == some ']' &&
+      (match parseFinalIdx (finalIdxText m) with | .oom => false | _ => true)))
+
+theorem goodSeg_lit {m : Name} (h : GoodSeg m = true) : LitSeg m := by
+  intro hb
+  simp only [GoodSeg, hb, decide_true, Bool.not_true, Bool.false_or, Bool.and_eq_true] at h
+  exact h.2.1.1
 
 theorem restTruthy_good (rest : List Name) (h : ∀ m ∈ rest, GoodSeg m = true) :
     restTruthy rest none = !(decide (rest = [])) := by
@@ -397,14 +406,14 @@ theorem getK_setK_same (cfg : Cfg) : ∀ (segs : List Name) (kvs kvs' : Kvs) (tv
       subst hrest
       simp only [decide_true, Bool.not_true, Bool.false_eq_true, if_false] at hset
       by_cases hb : '[' ∈ m
-      · have hg2 : (parseSeg m).isSome = true ∧ m.getLast? = some ']' := by
-          have : ¬'.' ∈ m ∧ (parseSeg m).isSome = true ∧ m.getLast? = some ']' := by
-            simpa [GoodSeg, hb, goodSeg_ne hgm] using hgm
-          exact this.2
+      · have hg3 : ¬'.' ∈ m ∧ ((parseSeg m).isSome = true ∧ m.getLast? = some ']') ∧
+            (match parseFinalIdx (finalIdxText m) with | .oom => false | _ => true) = true := by
+          simpa [GoodSeg, hb, goodSeg_ne hgm] using hgm
+        have hg2 : (parseSeg m).isSome = true ∧ m.getLast? = some ']' := hg3.2.1
         simp only [hb, hg2.2, and_self, if_true] at hset
         obtain ⟨⟨n, is⟩, hp⟩ := Option.isSome_iff_exists.mp hg2.1
         cases hpf : parseFinalIdx (finalIdxText m) with
-        | oom => simp [hpf] at hset
+        | oom => have := hg3.2.2; simp [hpf] at this
         | syntaxErr => simp [hpf] at hset
         | lit i =>
           have hi := parseFinalIdx_lit _ _ hpf
@@ -456,7 +465,7 @@ theorem getK_setK_same (cfg : Cfg) : ∀ (segs : List Name) (kvs kvs' : Kvs) (tv
               subst he' hk
               have ih := getK_setK_same cfg rest sub sub' tv hgr hrest hs
               have hsg : segGet kvs m = .ok (.node sub) := by simp [segGet, hb, he]
-              rw [getK, segGet_segPut kvs m _ _ hsg]
+              rw [getK, segGet_segPut kvs m _ _ (goodSeg_lit hgm) hsg]
               simp [hrest, ih]
       · simp only [hb, if_false] at hset
         split at hset
@@ -607,13 +616,119 @@ theorem wfT_putSub : ∀ {is : List Int} {v new : Tree}, wfT P v = true → wfT 
         simp only [wfT] at hv ⊢
         exact wfL_listSet hv (wfT_putSub (wfL_listGet hv hu) hn)
 
+theorem wfL_append : ∀ {xs ys : List Tree}, wfL P xs = true → wfL P ys = true → wfL P (xs ++ ys) = true
+  | [], _, _, hy => hy
+  | x :: r, ys, hx, hy => by
+    simp only [wfL, Bool.and_eq_true] at hx
+    simp only [List.cons_append, wfL, Bool.and_eq_true]
+    exact ⟨hx.1, wfL_append hx.2 hy⟩
+
+/-- what an index expression evaluates to is part of the (well-formed) tree, or a number -/
+theorem wfT_evalEx {kvs : Kvs} (h : wfK P kvs = true) : ∀ (ex : Ex) (v : Tree),
+    evalEx kvs ex = .ok v → wfT P v = true
+  | .int n, v, hv => by simp only [evalEx, Except.ok.injEq] at hv; subst hv; rfl
+  | .name s, v, hv => by
+    simp only [evalEx] at hv
+    split at hv
+    · simp at hv
+    · rename_i w hw; simp only [Except.ok.injEq] at hv; subst hv; exact (wfK_lookup h hw).2
+  | .sub e i, v, hv => by
+    simp only [evalEx] at hv
+    split at hv
+    · simp at hv
+    · rename_i ve hve
+      split at hv
+      · simp at hv
+      · rename_i vi hvi
+        have hwe := wfT_evalEx h e ve hve
+        unfold subscriptV at hv
+        split at hv
+        · rename_i xs n
+          obtain ⟨xs', j, he, _, hg⟩ := subscript_ok hv
+          simp only [Tree.list.injEq] at he
+          subst he
+          simp only [wfT] at hwe
+          exact wfL_listGet hwe hg
+        · simp at hv
+        · simp at hv
+  | .attr e a, v, hv => by
+    simp only [evalEx] at hv
+    split at hv
+    · simp at hv
+    · rename_i sub hve
+      have hwe := wfT_evalEx h e _ hve
+      split at hv
+      · simp at hv
+      · rename_i w hw
+        simp only [Except.ok.injEq] at hv; subst hv
+        simp only [wfT] at hwe
+        exact (wfK_lookup hwe hw).2
+    · simp at hv
+  | .neg e, v, hv => by
+    simp only [evalEx] at hv
+    split at hv
+    · simp at hv
+    · simp only [Except.ok.injEq] at hv; subst hv; rfl
+    · simp at hv
+  | .add a b, v, hv => by
+    simp only [evalEx] at hv
+    split at hv
+    · simp at hv
+    · rename_i va hva
+      split at hv
+      · simp at hv
+      · rename_i vb hvb
+        split at hv
+        · simp only [Except.ok.injEq] at hv; subst hv; rfl
+        · rename_i xs ys
+          have h1 := wfT_evalEx h a _ hva
+          have h2 := wfT_evalEx h b _ hvb
+          simp only [Except.ok.injEq] at hv; subst hv
+          simp only [wfT] at h1 h2 ⊢
+          exact wfL_append h1 h2
+        · simp at hv
+  | .minus a b, v, hv => by
+    simp only [evalEx] at hv
+    split at hv
+    · simp at hv
+    · split at hv
+      · simp at hv
+      · split at hv
+        · simp only [Except.ok.injEq] at hv; subst hv; rfl
+        · simp at hv
+
+theorem wfT_putPlace : ∀ (p : List PStep) (t new : Tree), wfT P t = true → wfT P new = true →
+    wfT P (putPlace t p new) = true
+  | [], _, _, _, hn => by simpa [putPlace] using hn
+  | .key k :: r, .node kvs, new, ht, hn => by
+    simp only [putPlace]
+    split
+    · rename_i v hv
+      simp only [wfT] at ht ⊢
+      have := wfK_lookup ht hv
+      exact wfK_insertK ht this.1 (wfT_putPlace r v new this.2 hn)
+    · exact ht
+  | .idx j :: r, .list xs, new, ht, hn => by
+    simp only [putPlace]
+    split
+    · rename_i v hv
+      simp only [wfT] at ht ⊢
+      exact wfL_listSet ht (wfT_putPlace r v new (wfL_listGet ht hv) hn)
+    · exact ht
+  | .key _ :: _, .leaf _, _, ht, _ => by simpa [putPlace] using ht
+  | .key _ :: _, .list _, _, ht, _ => by simpa [putPlace] using ht
+  | .idx _ :: _, .leaf _, _, ht, _ => by simpa [putPlace] using ht
+  | .idx _ :: _, .node _, _, ht, _ => by simpa [putPlace] using ht
+
 theorem wfT_segGet {kvs : Kvs} {m : Name} {v : Tree} (h : wfK P kvs = true) (hg : segGet kvs m = .ok v) :
     wfT P v = true := by
   unfold segGet at hg
   split at hg
   · unfold evalSeg at hg
     split at hg
-    · simp at hg
+    · split at hg
+      · simp at hg
+      · exact wfT_evalEx h _ _ hg
     · split at hg
       · simp at hg
       · rename_i w hw
@@ -638,7 +753,16 @@ theorem wfK_segPut {kvs : Kvs} {m : Name} {new : Tree} (h : wfK P kvs = true)
   unfold segPut
   split
   · split
-    · exact h
+    · split
+      · exact h
+      · split
+        · exact h
+        · rename_i p _
+          have := wfT_putPlace p (.node kvs) new (by simpa [wfT] using h) hn
+          cases hpp : putPlace (.node kvs) p new with
+          | node kvs' => rw [hpp] at this; simpa [kvsOf, wfT] using this
+          | leaf _ => simp [kvsOf, wfK]
+          | list _ => simp [kvsOf, wfK]
     · split
       · exact h
       · rename_i w hw
@@ -646,6 +770,20 @@ theorem wfK_segPut {kvs : Kvs} {m : Name} {new : Tree} (h : wfK P kvs = true)
         exact wfK_insertK h this.1 (wfT_putSub this.2 hn)
   · exact wfK_replaceK h hn
 
+
+theorem wfK_setIndexed {kvs : Kvs} {name : Name} {i : Int} {tv : Tree} (hw : wfK P kvs = true)
+    (hv : wfT P tv = true) : wfK P (setIndexed kvs name i tv).1 = true := by
+  unfold setIndexed
+  split
+  · exact hw
+  · rename_i xs hl
+    split
+    · exact hw
+    · have hsub := wfK_lookup hw hl
+      refine wfK_insertK hw hsub.1 ?_
+      simp only [wfT] at hsub ⊢
+      exact wfL_listSet hsub.2 hv
+  · exact hw
 
 theorem wfK_setK (cfg : Cfg) (hfix : cfg.fixReserved = true) (kvs : Kvs) (segs : List Name)
     (fin : Option Err) (cv : Except Err Tree) (hw : wfK P kvs = true)
@@ -670,12 +808,13 @@ theorem wfK_setK (cfg : Cfg) (hfix : cfg.fixReserved = true) (kvs : Kvs) (segs :
     have := ih (by simpa [wfT] using hsub.2) hcv (fun x hx => hP x (by simp [hx]))
     rw [hs] at this
     exact wfK_insertK hw hsub.1 (by simpa [wfT] using this)
-  case case15 kvs m rest fin _ v hb i _ xs hl j _ =>
+  case case13 => exact wfK_setIndexed hw (hcv _ rfl)
+  case case18 kvs m rest fin _ v hb i _ xs hl j _ =>
     have hsub := (wfK_lookup hw hl)
     refine wfK_insertK hw hsub.1 ?_
     simp only [wfT] at hsub ⊢
     exact wfL_listSet hsub.2 (hcv v rfl)
-  case case18 kvs m rest fin _ v hb hres =>
+  case case21 kvs m rest fin _ v hb hres =>
     have hr : isReserved cfg m = false := by simpa using hres
     refine wfK_insertK hw (hP m (by simp) hr ?_) (hcv v rfl)
     by_cases h : '[' ∈ m
@@ -873,7 +1012,7 @@ theorem delK_refuses_nonempty (cfg : Cfg) : ∀ (segs : List Name) (kvs : Kvs) (
         | node s =>
           simp only at hget ⊢
           rw [delK_refuses_nonempty cfg rest s x sub (fun y hy => hgood y (by simp [hy])) hrest hget]
-          simp only [segPut_same kvs m _ hs]
+          simp only [segPut_same kvs m _ (goodSeg_lit hgm) hs]
 
 
 /-- **Deleting a leaf (or an empty level) removes it**: afterwards the path is absent. -/
@@ -926,7 +1065,7 @@ theorem delK_leaf (cfg : Cfg) : ∀ (segs : List Name) (kvs : Kvs) (v : Tree),
             | cons a r => rw [List.getLast?_cons_cons]; exact hl
           obtain ⟨s', hd, hg⟩ := delK_leaf cfg rest s v hws (fun y hy => hgood y (by simp [hy])) hlast' hrest hget hv
           refine ⟨segPut kvs m (.node s'), by rw [hd], ?_⟩
-          rw [getK, segGet_segPut kvs m _ _ hs]
+          rw [getK, segGet_segPut kvs m _ _ (goodSeg_lit hgm) hs]
           simp [hrest, hg]
 
 
@@ -951,12 +1090,13 @@ theorem parseSeg_name {m n : Name} {is : List Int} (h : parseSeg m = some (n, is
     exact hn.symm
   · simp at h
 
-theorem lookupK_segPut_other (kvs : Kvs) (m k : Name) (new : Tree) (h : k ≠ beforeBracket m) :
-    lookupK k (segPut kvs m new) = lookupK k kvs := by
+theorem lookupK_segPut_other (kvs : Kvs) (m k : Name) (new : Tree) (h : k ≠ beforeBracket m)
+    (hlit : LitSeg m) : lookupK k (segPut kvs m new) = lookupK k kvs := by
   unfold segPut
   split
-  · split
-    · rfl
+  · rename_i hb0
+    split
+    · rename_i hp0; have := hlit hb0; simp [hp0] at this
     · rename_i name is hp
       have := parseSeg_name hp
       subst this
@@ -970,28 +1110,38 @@ theorem lookupK_segPut_other (kvs : Kvs) (m k : Name) (new : Tree) (h : k ≠ be
     · exact lookupK_insertK_other _ _ _ _ h
     · rfl
 
+theorem lookupK_setIndexed_other (kvs : Kvs) (name k : Name) (i : Int) (tv : Tree) (h : k ≠ name) :
+    lookupK k (setIndexed kvs name i tv).1 = lookupK k kvs := by
+  unfold setIndexed
+  repeat' (first
+    | rfl
+    | exact lookupK_insertK_other _ _ _ _ h
+    | split)
+
 /-- an assignment through `m` touches only the entry `m` is based on -/
 theorem lookupK_setK_other (cfg : Cfg) (kvs : Kvs) (m : Name) (ps : List Name) (fin : Option Err)
     (cv : Except Err Tree) (k : Name) (h : k ≠ beforeBracket m)
-    (hm : '[' ∈ m → m.getLast? = some ']') :
+    (hm : '[' ∈ m → m.getLast? = some ']') (hlit : LitSeg m) :
     lookupK k (setK cfg kvs (m :: ps) fin cv).1 = lookupK k kvs := by
   have h2 : '[' ∉ m → k ≠ m := fun hb => by rw [beforeBracket_plain m hb] at h; exact h
   unfold setK
   repeat' (first
     | rfl
-    | exact lookupK_segPut_other _ _ _ _ h
+    | exact lookupK_segPut_other _ _ _ _ h hlit
+    | exact lookupK_setIndexed_other _ _ _ _ _ h
     | exact lookupK_insertK_other _ _ _ _ h
     | exact lookupK_insertK_other _ _ _ _ (h2 ‹_›)
     | exact lookupK_insertK_other _ _ _ _ (h2 (fun h1 => ‹¬ ('[' ∈ m ∧ m.getLast? = some ']')› ⟨h1, hm h1⟩))
     | split)
 
-theorem segGet_congr (kvs kvs' : Kvs) (m : Name)
+theorem segGet_congr (kvs kvs' : Kvs) (m : Name) (hlit : LitSeg m)
     (h : lookupK (beforeBracket m) kvs' = lookupK (beforeBracket m) kvs) : segGet kvs' m = segGet kvs m := by
   unfold segGet
   split
-  · unfold evalSeg
+  · rename_i hb0
+    unfold evalSeg
     split
-    · rfl
+    · rename_i hp0; have := hlit hb0; simp [hp0] at this
     · rename_i name is hp
       rw [parseSeg_name hp, h]
   · rename_i hb
@@ -1056,55 +1206,60 @@ inductive Indep : List Name → List Name → Prop
 theorem Indep.ne_nil {p q : List Name} (h : Indep p q) : p ≠ [] ∧ q ≠ [] := by
   cases h <;> simp
 
-theorem getK_nil_not_ok (q : List Name) (hq : q ≠ []) (v : Tree) : getK [] q none ≠ .ok v := by
+theorem getK_nil_not_ok (q : List Name) (hq : q ≠ []) (hlit : ∀ m ∈ q, LitSeg m) (v : Tree) :
+    getK [] q none ≠ .ok v := by
   cases q with
   | nil => exact absurd rfl hq
   | cons a r =>
     rw [getK]
-    have : ∀ m, ∃ e, segGet [] m = .error e := by
-      intro m
+    have : ∀ m, LitSeg m → ∃ e, segGet [] m = .error e := by
+      intro m hl
       unfold segGet
       split
-      · unfold evalSeg
+      · rename_i hb0
+        unfold evalSeg
         split
-        · exact ⟨_, rfl⟩
+        · rename_i hp0; have := hl hb0; simp [hp0] at this
         · exact ⟨_, rfl⟩
       · exact ⟨_, rfl⟩
-    obtain ⟨e, he⟩ := this a
+    obtain ⟨e, he⟩ := this a (hlit a (by simp))
     simp [he]
 
 /-- **An assignment does not disturb an independent path**: whatever the assignment at `p` does
 (including failing half-way), looking up `q` gives the same answer as before. -/
 theorem getK_setK_indep (cfg : Cfg) {p q : List Name} (h : Indep p q) :
     ∀ (kvs : Kvs) (fin : Option Err) (cv : Except Err Tree) (v : Tree),
-    (∀ m ∈ p, GoodSeg m = true) →
+    (∀ m ∈ p, GoodSeg m = true) → (∀ m ∈ q, GoodSeg m = true) →
     (getK (setK cfg kvs p fin cv).1 q none = .ok v ↔ getK kvs q none = .ok v) := by
   induction h with
   | @head m m' ps qs hne =>
-    intro kvs fin cv v hp
+    intro kvs fin cv v hp hq
     have hgm := hp m (by simp)
     have hm : '[' ∈ m → m.getLast? = some ']' := by
       intro hb
-      have : ¬'.' ∈ m ∧ (parseSeg m).isSome = true ∧ m.getLast? = some ']' := by
+      have : ¬'.' ∈ m ∧ ((parseSeg m).isSome = true ∧ m.getLast? = some ']') ∧
+          (match parseFinalIdx (finalIdxText m) with | .oom => false | _ => true) = true := by
         simpa [GoodSeg, hb, goodSeg_ne hgm] using hgm
-      exact this.2.2
-    rw [getK_congr_head _ _ _ _ _ (segGet_congr _ _ _
-      (lookupK_setK_other cfg kvs m ps fin cv _ (fun e => hne e.symm) hm))]
+      exact this.2.1.2
+    rw [getK_congr_head _ _ _ _ _ (segGet_congr _ _ _ (goodSeg_lit (hq m' (by simp)))
+      (lookupK_setK_other cfg kvs m ps fin cv _ (fun e => hne e.symm) hm (goodSeg_lit hgm)))]
   | @tail m ps qs hi ih =>
-    intro kvs fin cv v hp
+    intro kvs fin cv v hp hqg
+    have hqs : ∀ x ∈ qs, GoodSeg x = true := fun x hx => hqg x (by simp [hx])
     have hps : ∀ x ∈ ps, GoodSeg x = true := fun x hx => hp x (by simp [hx])
     have hr := restTruthy_of_good ps fin hi.ne_nil.1 hps
     have hq : qs ≠ [] := hi.ne_nil.2
     rcases setK_descend cfg kvs m ps fin cv hr with h0 | ⟨sub, hs, h1⟩ | ⟨hb, hl, h2⟩
     · rw [h0]
-    · rw [h1, getK, getK, segGet_segPut kvs m _ _ hs, hs]
+    · rw [h1, getK, getK, segGet_segPut kvs m _ _ (goodSeg_lit (hp m (by simp))) hs, hs]
       simp only [hq, false_and, if_false]
-      exact ih sub fin cv v hps
+      exact ih sub fin cv v hps hqs
     · rw [h2, getK, getK]
       simp only [segGet, hb, if_false, lookupK_insertK_same, hl, hq, false_and]
       constructor
       · intro hg
-        exact absurd ((ih [] fin cv v hps).mp hg) (getK_nil_not_ok qs hi.ne_nil.2 v)
+        exact absurd ((ih [] fin cv v hps hqs).mp hg)
+          (getK_nil_not_ok qs hi.ne_nil.2 (fun x hx => goodSeg_lit (hqs x hx)) v)
       · intro hg; simp at hg
 
 
@@ -1231,8 +1386,9 @@ theorem setK_ok_cv (cfg : Cfg) (kvs : Kvs) (segs : List Name) (fin : Option Err)
     simp only [Prod.mk.injEq] at h
     rw [h.2] at hs
     exact ih sub' (restTruthy_ne _ _ hr) hs
-  case case15 => exact ⟨_, rfl⟩
+  case case13 => exact ⟨_, rfl⟩
   case case18 => exact ⟨_, rfl⟩
+  case case21 => exact ⟨_, rfl⟩
 
 /-- the items of a plain dict are assigned in order; the last one is what the final `__setitem__` did -/
 theorem convItems_snoc (cfg : Cfg) : ∀ (its : List (Name × PVal)) (k : Name) (v : PVal) (acc : Kvs) (t : Tree),
